@@ -118,17 +118,32 @@ theorem accepts_outbound_turn {H : Type} (hstep : H → Call → H × Reply) (g 
     resGood (Proc.run hstep (restOfSession c fuel n true st) (render script ++ tail) h []).1 :=
   good_ours_all hstep c fuel g (ra_of hstep g hR hA) tail hc script n st hq hs hf h hconf
 
-/-! ### findings -/
+/-! ### the cut between the EOT and its checksum byte -/
 
-/-- **FINDING (why `cutFrame` excludes one cut position).** A connection that ends exactly between the `EOT`
-byte of a transfer and its checksum byte is NOT reported as a lost connection: `readCompressed` ignores the
-error of that `ReadByte`, takes the missing byte as 0 and reports `bad-checksum` whenever the data sum is
-not 0 mod 256. So "a conforming prefix followed by EOF is never a protocol error" is false at this one cut. -/
-theorem cut_after_eot_is_reported_as_checksum_error {H : Type} (hstep : H → Call → H × Reply) (csize : Int)
-    (fuel : Nat) (buf : Bytes) (sum : Nat) (hs : sum % 256 ≠ 0) (h : H) (tr : List Ev) :
-    Proc.run hstep (readBlocks csize (fuel + 1) buf sum) [4] h tr =
-      (.done (.error (.proto "bad-checksum")), [], h, tr) :=
-  run_readBlocks_eot_eof hstep csize fuel buf sum hs h tr
+/-- **`cut_after_eot_is_connection_lost`.** A connection that ends exactly between the `EOT` byte of a transfer
+and its checksum byte is reported as a LOST CONNECTION, like every other cut — whatever the data sum is
+(`readCompressed` returns the error of that `ReadByte`; before the repair of fbb/b2f.go it ignored the error,
+took the missing byte as 0 and reported `bad-checksum`, or — data sum 0 mod 256 — accepted the transfer).
+(1) the block loop, in ANY state (any payload so far, any running sum, any declared size), on the lone `EOT`:
+`.error .eof`, all input consumed, handler state and trace untouched. (2) `readCompressed` on a whole
+well-formed transfer (any title without NUL, any blocks of 1..256 bytes, any checksum byte `ck`) without its
+last byte: the same. (3) that cut is one of the cuts the input grammar allows (`cutFrame`), so
+`accepts_grammar` covers it: the session ends with `connLost` (evaluated: conversation (a7d) below). -/
+theorem cut_after_eot_is_connection_lost {H : Type} (hstep : H → Call → H × Reply) :
+    (∀ (csize : Int) (fuel : Nat) (buf : Bytes) (sum : Nat) (h : H) (tr : List Ev),
+      Proc.run hstep (readBlocks csize (fuel + 1) buf sum) [4] h tr = (.done (.error .eof), [], h, tr)) ∧
+    (∀ (title : Bytes) (chunks : List Bytes) (ck : UInt8) (p : Proposal) (fuel : Nat) (h : H) (tr : List Ev),
+      (0 : UInt8) ∉ title → title.length + 3 < 256 → (∀ c ∈ chunks, 1 ≤ c.length ∧ c.length ≤ 256) →
+      p.offset = 0 → (RUnit.frame title chunks ck).bytes.length ≤ fuel →
+      Proc.run hstep (readCompressed fuel p) (RUnit.frame title chunks ck).bytes.dropLast h tr =
+        (.done (.error .eof), [], h, tr)) ∧
+    (∀ (title : Bytes) (chunks : List Bytes) (ck : UInt8),
+      (0 : UInt8) ∉ title → title.length + 3 < 256 → (∀ c ∈ chunks, 1 ≤ c.length ∧ c.length ≤ 256) →
+      cutFrame (RUnit.frame title chunks ck).bytes.dropLast = true) :=
+  ⟨fun csize fuel buf sum h tr => run_readBlocks_eot_eof hstep csize fuel buf sum h tr,
+   fun title chunks ck p fuel h tr hz hlen hwf hoff hf =>
+     run_readCompressed_eot_eof hstep title chunks ck hz hlen hwf p hoff fuel hf h tr,
+   fun title chunks ck hz hlen hwf => cutFrame_dropLast title chunks ck hz hlen hwf⟩
 
 /-! ### evaluated conversations -/
 
@@ -517,6 +532,20 @@ example :
       exReports exS {} script [1, 4, 84, 0, 48, 0, 2, 6, 0, 0, 0, 0, 0, 0] (fun r => r.err == .connLost && r.received == []) = true := by
   decide +kernel
 
+/-- (a7d) the connection ends right after the EOT byte, the checksum byte never arrives (the payload's byte sum
+is 0 mod 256, so a missing byte read as 0 WOULD be the right checksum): conforming — the grammar allows every
+cut, `cutFrame` —; lost connection, nothing recorded as received (`cut_after_eot_is_connection_lost`) -/
+example :
+    let script : List RUnit := [
+      .line [91, 82, 77, 83, 45, 49, 46, 48, 45, 66, 50, 70, 72, 77, 36, 93],  -- `[RMS-1.0-B2FHM$]`
+      .line [67, 77, 83, 62],  -- `CMS>`
+      .line [70, 67, 32, 69, 77, 32, 77, 49, 32, 48, 32, 54, 32, 48],  -- `FC EM M1 0 6 0`
+      .line [70, 62, 32, 50, 52]  -- `F> 24`
+    ]
+    exVerdict exS exGS {} script [1, 4, 84, 0, 48, 0, 2, 6, 0, 0, 0, 0, 0, 0, 4] = true ∧
+      exReports exS {} script [1, 4, 84, 0, 48, 0, 2, 6, 0, 0, 0, 0, 0, 0, 4] (fun r => r.err == .connLost && r.received == []) = true := by
+  decide +kernel
+
 /-! ### (b) rejected conversations, and what the session reports -/
 
 /-- (b1) wrong checksum on the `F>` line (`F> 00`, correct: `F> 24`) -/
@@ -714,21 +743,6 @@ example :
       exReports exS {} script [] (fun r => r.err == .nil && r.received == []) = true := by
   decide +kernel
 
-/-- (F3) FINDING — the connection ends right after the EOT byte, the checksum byte never arrives (the grammar
-excludes this cut: `cutFrame`): the session reads the missing checksum byte as 0 — the right checksum for a
-payload whose byte sum is 0 mod 256, as here — RECORDS M1 AS RECEIVED, writes `FF`, and only then reports the
-lost connection -/
-example :
-    let script : List RUnit := [
-      .line [91, 82, 77, 83, 45, 49, 46, 48, 45, 66, 50, 70, 72, 77, 36, 93],  -- `[RMS-1.0-B2FHM$]`
-      .line [67, 77, 83, 62],  -- `CMS>`
-      .line [70, 67, 32, 69, 77, 32, 77, 49, 32, 48, 32, 54, 32, 48],  -- `FC EM M1 0 6 0`
-      .line [70, 62, 32, 50, 52]  -- `F> 24`
-    ]
-    exVerdict exS exGS {} script [1, 4, 84, 0, 48, 0, 2, 6, 0, 0, 0, 0, 0, 0, 4] = false ∧
-      exReports exS {} script [1, 4, 84, 0, 48, 0, 2, 6, 0, 0, 0, 0, 0, 0, 4] (fun r => r.err == .connLost && r.received == [[77, 49]]) = true := by
-  decide +kernel
-
 /-- (F4) a transfer unit where none is owed (right after the prompt): the grammar rejects; the session reads the
 bytes as an unfinished line and reports a lost connection -/
 example :
@@ -826,10 +840,20 @@ example (script : List RUnit) (tail : Bytes) (fuel n : Nat) (hf : (render script
     resGood (Proc.run quietHandler (restOfSession exS fuel (n + 1) false {}) (render script ++ tail) () []).1 :=
   accepts_inbound_turn quietHandler exGS exS exS_ok.1 (quiet_ok exGS).1 (quiet_ok exGS).2 fuel n {} rfl rfl script tail hf () hconf
 
-/-- the cut after EOT: data sum 7, the missing checksum byte reads as 0 -/
-example : (Proc.run hstep (readBlocks 1 5 [7] 7) [4] ({} : HState) []).1 =
-    .done (.error (.proto "bad-checksum")) :=
-  congrArg (·.1) (cut_after_eot_is_reported_as_checksum_error hstep 1 4 [7] 7 (by decide) ({} : HState) [])
+/-- the cut after EOT: data sum 7 — a lost connection (formerly: the missing byte read as 0, "bad-checksum") … -/
+example : (Proc.run hstep (readBlocks 1 5 [7] 7) [4] ({} : HState) []).1 = .done (.error .eof) :=
+  congrArg (·.1) ((cut_after_eot_is_connection_lost hstep).1 1 4 [7] 7 ({} : HState) [])
+/-- … and data sum 0 — a lost connection too (formerly: ACCEPTED as a complete transfer) -/
+example : (match (Proc.run hstep (readBlocks 1 5 [0] 0) [4] ({} : HState) []).1 with
+    | .done (.error .eof) => true
+    | _ => false) = true := by decide +kernel
+/-- the whole transfer `SOH 4 T NUL 0 NUL STX 6 <6 bytes> EOT` without its checksum byte, evaluated -/
+example : (match (Proc.run hstep (readCompressed 20 { code := 67, msgType := [69, 77], mid := [77, 49], size := 0, csize := 6 })
+      [1, 4, 84, 0, 48, 0, 2, 6, 0, 0, 0, 0, 0, 0, 4] ({} : HState) []).1 with
+    | .done (.error .eof) => true
+    | _ => false) = true := by decide +kernel
+example : (RUnit.frame [84] [[0, 0, 0, 0, 0, 0]] 0).bytes.dropLast = [1, 4, 84, 0, 48, 0, 2, 6, 0, 0, 0, 0, 0, 0, 4] := by
+  decide +kernel
 
 /-- the duality pieces on a concrete proposal (MID `AB`, 0 bytes, compressed 6) and a concrete frame -/
 example : proposal? (proposalLine 67 [69, 77] [65, 66] 0 6) = some 6 := by decide +kernel
